@@ -6,6 +6,7 @@ import Pathrs.Kernel.World
 `PWorld` is an immutable tree of procfs objects — directories, ordinary symlinks (`self`, `thread-self`, `net`,
 `mounts`: relative bodies), magic-links (`exe`, `cwd`, `fd/N`, `ns/*`) and other files — in which every object
 carries the id of the mount it is on: an entry that has been over-mounted leads to the root of the other mount.
+A magic-link has a `target` (what following it yields).
 `PWorld.answer` is the kernel's answer to every call the emulated procfs resolver makes, and `presolve` is the
 specification of `openat2(base, path, oflags, RESOLVE_BENEATH|RESOLVE_NO_XDEV|RESOLVE_NO_MAGICLINKS[|NO_SYMLINKS])`.
 Descriptors are identified with objects, as in `World`.
@@ -26,6 +27,12 @@ structure PWorld where
   body : Fd → Bytes
   /-- the mount an object is on -/
   mnt : Fd → Nat
+  /-- the object a magic-link leads to when the kernel follows it (`fd/N`: the open file of descriptor `N`; `exe`,
+  `cwd`, `ns/*`); such objects need not lie on procfs at all -/
+  target : Fd → Option Fd := fun _ => none
+  /-- what the kernel's own, unconfined walk of an *ordinary* link's body arrives at when an `open(2)` follows the link
+  as a trailing component (left uninterpreted: the library never lets the kernel do that on an unverified link) -/
+  follow : Fd → Except Nat Fd := fun _ => .error ELOOP
   /-- the kernel's bound on followed links -/
   kernelLinks : Nat
 
@@ -115,25 +122,42 @@ def answer (w : PWorld) : Call → Resp
   | .gettid => .nums [1]
   | .geteuid => .nums [0]
   | .openat d n fl _ =>
-      -- the wrapper always sets `O_NOFOLLOW`: one component, never followed, then `open(2)` of what it names
+      -- one component, then `open(2)` of what it names; a link is followed only when `O_NOFOLLOW` is absent (the one
+      -- such call of the library is the last step of `open_follow`)
       match w.lookup d n with
-      | .ok c => (match openKind (w.kind c) fl with | .ok () => .fd c | .error e => .err e)
+      | .ok c =>
+        if hasAll fl O_NOFOLLOW || !isLink (w.kind c) then
+          (match openKind (w.kind c) fl with | .ok () => .fd c | .error e => .err e)
+        else
+          (match (if w.kind c = .magic then (match w.target c with | some t => .ok t | none => .error ENOENT)
+                  else w.follow c) with
+           | .ok t => (match openKind (w.kind t) fl with | .ok () => .fd t | .error e => .err e)
+           | .error e => .err e)
       | .error e => .err e
   | .fstatat d n _ =>
       if d = AT_FDCWD then .nums [S_IFLNK ||| 0o777, 0, 3, 5]     -- the diagnostic probes of /proc
       else if n = [] then .nums [modeOf (w.kind d), 0, d.toNat, 1]
-      else .err ENOENT
+      else if Path.containsSlash n then .err ENOENT                -- (only the `thread-self` existence probe walks a path)
+      else (match w.lookup d n with                                -- one component, never followed
+            | .ok c => .nums [modeOf (w.kind c), 0, c.toNat, 1]
+            | .error e => .err e)
   | .readlinkat d n _ =>
       if n ≠ [] then .err ENOENT
       else if isLink (w.kind d) then .bytes (w.body d)
       else .err EINVAL
   | .fstatfs _ => .nums [PROC_SUPER_MAGIC]
-  | .statx d _ _ _ => .nums [STATX_WANT, w.mnt d]
+  | .statx d n _ _ =>
+      -- `AT_EMPTY_PATH|AT_SYMLINK_NOFOLLOW`: the descriptor itself, or one component never followed
+      if n = [] then .nums [STATX_WANT, w.mnt d]
+      else (match w.lookup d n with
+            | .ok c => .nums [STATX_WANT, w.mnt c]
+            | .error e => .err e)
   | .readlinkAbs _ => .bytes b!"/"
   | .openat2 d path flags _ resolve _ =>
-      if d = w.base ∧ hasAll resolve (RESOLVE_BENEATH ||| RESOLVE_NO_XDEV ||| RESOLVE_NO_MAGICLINKS) then
-        match resolveBeneath w { oflags := flags, noSymlinks := hasAll resolve RESOLVE_NO_SYMLINKS,
-                                 maxLinks := w.kernelLinks } path with
+      -- the confined lookup, started at the directory the call names
+      if hasAll resolve (RESOLVE_BENEATH ||| RESOLVE_NO_XDEV ||| RESOLVE_NO_MAGICLINKS) then
+        match resolveBeneath { w with base := d } { oflags := flags, noSymlinks := hasAll resolve RESOLVE_NO_SYMLINKS,
+                                                    maxLinks := w.kernelLinks } path with
         | .ok c => .fd c
         | .error e => .err e
       else .err ENOSYS
